@@ -46,6 +46,18 @@ CLAIMED = {
     "C09": ("bounded symbolic model checking of the three dry-run routes against the real mkdir code in one harness: no mutation, report text equals tree text plus per-root counts, and the counts equal what the real Mkdir then creates in the same model; names-based rejection equivalence is decided at byte level under C07",
             "file-system model, color/bufio stubs; massive mode under C10",
             "DESIGN.md 5 C09"),
+    "C10": ("bounded symbolic model checking of the real pipeline code next to the real simple-mode code on the same symbolic documents: goroutines, channels, select, WaitGroup, Mutex, context and errgroup are interpreted under a deterministic cooperative scheduler (several policies), and z3 decides same accept/reject decision and equality of results up to the order of roots (whole per-root blocks) for text, JSON, dry-run, walk, mkdir and verify; a byte-level job decides the unit-learning difference, another the pre-existing-root case",
+            "the input and configuration quantifiers are decided; the schedule quantifier only over the explored policies (each a legal Go schedule) - equality under every schedule is NOT claimed; no data-race detection; two known findings (mixed indentation units per block, partial mkdir when a root exists) are listed in known_findings.txt",
+            "DESIGN.md 5 C10, 3.6"),
+    "C11": ("bounded symbolic model checking of termination, error reporting and goroutine leaks of the real pipeline under the engine's scheduler: failing subsets of blocks in every stage, a failing reader, and cancellation of the caller's context at a symbolic synchronisation event; a blocked main goroutine with nothing runnable is reported as deadlock, and after the return every runnable goroutine is run to quiescence and survivors are counted",
+            "schedules: FIFO/LIFO x first/last ready select case only; the data-race clause of the property is NOT decidable with this technique (no memory model) and is outside the claim",
+            "DESIGN.md 5 C11, 3.6"),
+    "C16": ("bounded symbolic model checking of the CLI's flag-to-option wiring and exit-status logic: the three action functions and main() are executed with every flag value symbolic; the options they pass are applied by the real gtree.newConfig and z3 decides that the resulting configuration, writer and reader are what the flags denote, that every failure surfaces as a non-zero ExitCoder and success as nil, and that main exits non-zero exactly when App.Run failed",
+            "library entry points, urfave/cli's parser, os.Open/Exit and the standard streams are stubs (contracts listed in the evidence); what the library does with the options is C01-C15; counterexamples of these jobs are replayed by a concrete CLI-vs-library differential run (tools/cli_replay)",
+            "DESIGN.md 5 C16"),
+    "C17": ("bounded symbolic model checking of a two-variant relational property: the tinywasm file set is regenerated from /repo as a second package of the same SSA program, both Output implementations run on the same symbolic documents and options, and z3 decides equal accept/reject decisions and equal output (text with opaque branch strings, JSON record, dry-run report)",
+            "the tinywasm constraint is emulated by file selection (same files the Go tool would select); Parse contract; encoder stubs; bound = rows",
+            "DESIGN.md 5 C17"),
 }
 
 NOT_YET = "check under construction in this session (engine built first; see DESIGN.md 5)"
